@@ -218,6 +218,60 @@ theorem storedL_of_saved (s : Str) (j : Ser) (H : List Node → Id) (hash : Byte
         (fun p hp => ht p (List.mem_append_right _ hp)) (fun c hcm => hc c (List.mem_append_right _ hcm))⟩
 end
 
+mutual
+theorem stored_of_saved_gen (s : Str) (j : Ser) (H : List Node → Id) (hash : Bytes → Id) (chunks : Bytes → List Bytes)
+    (hasTree : Id → Bool) (getTree getData : Id → Option Bytes)
+    (hold : ∀ nodes, hasTree (H nodes) = true → getTree (H nodes) = some (treeBytes s j nodes)) : ∀ (t : STree),
+    (∀ p ∈ (save H hash chunks hasTree t).trees, getTree p.1 = some (treeBytes s j p.2)) →
+    (∀ c ∈ (save H hash chunks hasTree t).chunks, getData (hash c) = some c) →
+    t.Stored s j H hash chunks hasTree getTree getData
+  | .leaf n d => by
+    intro _ hc
+    simp only [STree.Stored]
+    intro hk c hcm
+    exact hc c (by simpa [save, hk] using hcm)
+  | .dir n cs => by
+    intro ht hc
+    simp only [STree.Stored]
+    simp only [save] at ht hc
+    by_cases hh : hasTree (H (saveL H hash chunks hasTree cs).nodes) = true
+    · simp only [hh, if_true] at ht
+      exact ⟨hold _ hh, storedL_of_saved_gen s j H hash chunks hasTree getTree getData hold cs ht hc⟩
+    · simp only [hh, Bool.false_eq_true, if_false] at ht
+      exact ⟨ht (_, _) (List.mem_append_right _ (List.mem_singleton.mpr rfl)),
+        storedL_of_saved_gen s j H hash chunks hasTree getTree getData hold cs
+          (fun p hp => ht p (List.mem_append_left _ hp)) hc⟩
+theorem storedL_of_saved_gen (s : Str) (j : Ser) (H : List Node → Id) (hash : Bytes → Id) (chunks : Bytes → List Bytes)
+    (hasTree : Id → Bool) (getTree getData : Id → Option Bytes)
+    (hold : ∀ nodes, hasTree (H nodes) = true → getTree (H nodes) = some (treeBytes s j nodes)) : ∀ (ts : List STree),
+    (∀ p ∈ (saveL H hash chunks hasTree ts).trees, getTree p.1 = some (treeBytes s j p.2)) →
+    (∀ c ∈ (saveL H hash chunks hasTree ts).chunks, getData (hash c) = some c) →
+    StoredL s j H hash chunks hasTree getTree getData ts
+  | [] => fun _ _ => trivial
+  | t :: ts => by
+    intro ht hc
+    simp only [saveL] at ht hc
+    exact ⟨stored_of_saved_gen s j H hash chunks hasTree getTree getData hold t
+        (fun p hp => ht p (List.mem_append_left _ hp)) (fun c hcm => hc c (List.mem_append_left _ hcm)),
+      storedL_of_saved_gen s j H hash chunks hasTree getTree getData hold ts
+        (fun p hp => ht p (List.mem_append_right _ hp)) (fun c hcm => hc c (List.mem_append_right _ hcm))⟩
+end
+
+/-- the same over a repository that already holds some of the trees (`hasTree`): those are not handed to the packer
+again and must read back from the old packs (`hold`) -/
+theorem restore_of_saved_gen (s : Str) (hs : StrOK s) (j : Ser) (H : List Node → Id) (hash : Bytes → Id)
+    (chunks : Bytes → List Bytes) (hch : ∀ d, (chunks d).flatten = d) (hasTree : Id → Bool)
+    (getTree getData : Id → Option Bytes) (order : List Write → List Write) (ho : ∀ l w, w ∈ order l ↔ w ∈ l)
+    (src : List STree) (hwf : WFL src)
+    (hold : ∀ nodes, hasTree (H nodes) = true → getTree (H nodes) = some (treeBytes s j nodes))
+    (hroot : getTree (H (saveL H hash chunks hasTree src).nodes) = some (treeBytes s j (saveL H hash chunks hasTree src).nodes))
+    (ht : ∀ p ∈ (saveL H hash chunks hasTree src).trees, getTree p.1 = some (treeBytes s j p.2))
+    (hc : ∀ c ∈ (saveL H hash chunks hasTree src).chunks, getData (hash c) = some c) :
+    restoreTrees s j getTree getData order (depthL src + 1) (H (saveL H hash chunks hasTree src).nodes) = some src := by
+  have hst := storedL_of_saved_gen s j H hash chunks hasTree getTree getData hold src ht hc
+  simp only [restoreTrees, loadTree_treeBytes s hs j getTree _ _ hroot]
+  exact restore_save_list s hs j H hash chunks hch hasTree getTree getData order ho src hwf hst (depthL src) (Nat.le_refl _)
+
 /-- **Snapshot round trip over a faithful blob store.**  If every tree blob and every chunk the archive of the forest
 produced reads back by its id, restoring from the root id gives back the forest: every name, type, link target,
 metadata record and file content, directories to any depth. -/
